@@ -82,6 +82,10 @@ type node struct {
 	// one chunk, never stat-ed) when Chmod/Touch was applied; MFS then rewrites
 	// it as a dag-pb leaf with inline data. Cleared when the file is emptied.
 	inlineLeaf bool
+	// rawLeaf: under a CIDv1 root the last content write happened while the
+	// file had no mode/mtime and fits one chunk: DagModifier collapses it to a
+	// single RawNode.
+	rawLeaf bool
 }
 
 func newDir(name string) *node { return &node{name: name, dir: true, kids: map[string]*node{}} }
@@ -250,7 +254,7 @@ type world struct {
 	// avoidExt: never grow (write or truncate past the end of) a non-empty file
 	// that MFS rewrote as an inline-data dag-pb leaf (trigger of the listed DagModifier finding)
 	avoidExt bool
-	pubs  int
+	pubs     int
 
 	// measured features for the non-triviality rule and the evidence
 	okMvSpecial, okWrite, failedOps, dagFiles, dagShards, fullChecks, dagChecks int
@@ -270,7 +274,7 @@ type world struct {
 	// features of the listed stale-handle finding, measured per session:
 	cleanedDepth int  // depth of the shallowest on-path directory whose cache was dropped while the fd was open (-1 none)
 	freshLookup  bool // afterwards a path-based operation resolved an on-path entry below that directory
-	lastOp                                                                  string
+	lastOp       string
 }
 
 func v1Builder() cid.Builder { return cid.V1Builder{Codec: cid.DagProtobuf, MhType: mh.SHA2_256} }
@@ -340,13 +344,10 @@ func (w *world) markStat(n *node) {
 	if n.dir {
 		return
 	}
-	chunk := 262144
-	if w.cfg.chunk > 0 {
-		chunk = w.cfg.chunk
-	}
-	if w.cfg.cidV1 && !n.stat && len(n.data) > 0 && len(n.data) <= chunk {
+	if n.rawLeaf && len(n.data) > 0 {
 		n.inlineLeaf = true
 	}
+	n.rawLeaf = false
 	n.stat = true
 }
 
@@ -358,13 +359,13 @@ func (w *world) guard(where string, fn func()) bool {
 func main() { vlib.Run("C19", run) }
 
 func run(c *vlib.Ctx) {
-	c.Rule("histories of 6-30 ops {Mkdir(+-parents,+-flush,+-mode/mtime,+-trailing slash), create(PutNode empty), cp-file(PutNode of an existing file node), fd session(truncate/seek-start/write/write, +-fd.Flush, +-Sync flag), Mv(file|dir -> new name | existing file | existing dir +-trailing slash | itself | random), Unlink(+-parent flush), Chmod, Touch, FlushPath(any path), Root.Flush, FlushMemFree, reload(NewRoot from the flushed root node), Lookup, ListNames, fd read} over names {a,b,x,f} depth<=3 (stratum wide: n0..n9 depth<=2) x roots {MaxLinks 0/2/3/5, fanout 8/16, HAMTShardingSize 0/120, CIDv0/v1(raw leaves), default/size-8/size-32 chunker} x observation density {0,30,100}% full-tree comparisons; strata clean/wide never generate a Mv whose source and destination directories are distinct but equally named with the same leaf (the listed finding), stratum trigger pre-creates /a/x,/b/x,/x/x and favours them; directory moves into their own subtree are never generated. distinct = FNV of config + op list; non-trivial = the history had a successful Mv that was a directory move or replaced a file or went into an existing directory, a successful fd write session, an expected failure after which the whole tree was verified unchanged, and a DAG read-back after a flush that compared at least one file's bytes")
-	c.Cases("clean", c.N(800, 20000), func(k *vlib.Case) { history(k, "clean") })
-	c.Cases("wide", c.N(200, 4000), func(k *vlib.Case) { history(k, "wide") })
-	c.Cases("maxlinks", c.N(150, 3000), func(k *vlib.Case) { history(k, "maxlinks") })
-	c.Cases("rawstat", c.N(150, 3000), func(k *vlib.Case) { history(k, "rawstat") })
-	c.Cases("trigger", c.N(200, 4000), func(k *vlib.Case) { history(k, "trigger") })
-	c.Cases("longfd", c.N(200, 4000), func(k *vlib.Case) { history(k, "longfd") })
+	c.Rule("histories of 6-30 ops {Mkdir(+-parents,+-flush,+-mode/mtime,+-trailing slash), create(PutNode empty), cp-file(PutNode of an existing file node), fd session(truncate/seek-start/write/write, +-fd.Flush, +-Sync flag, 1/4 of them with other operations run while the descriptor is open), Mv(file|dir -> new name | existing file | existing dir +-trailing slash | itself | random), Unlink(+-parent flush), Chmod, Touch, FlushPath(any path), Root.Flush, FlushMemFree, reload(NewRoot from the flushed root node through a fresh DAG service), Lookup, ListNames, fd read} over names {a,b,x,f} depth<=3 (stratum wide: n0..n9 depth<=2) x roots {HAMTShardingSize 0/80/120/200 (shards from 3-4 entries), fanout 8/16/default, CIDv0/v1(raw leaves), default/size-8/size-32 chunker} x observation density {0,30,100}% full-tree comparisons. Directory moves into their own subtree are never generated. Strata clean/wide avoid the triggers of all listed findings; each finding has its own stratum that allows its trigger and nothing else new: trigger (Mv between distinct equally named directories with the same leaf; /a/x,/b/x,/x/x pre-created), maxlinks (MaxLinks 2/3/5), rawstat (CIDv1: Chmod/Touch on a raw-leaf file, later grown), longfd (a directory on the open file's path is flushed while the descriptor is open). distinct = FNV of config + op list; non-trivial = the history had a successful Mv that was a directory move or replaced a file or went into an existing directory, a successful fd write session, an expected failure after which the whole tree was verified unchanged, and a DAG read-back after a flush that compared at least one file's bytes")
+	c.Cases("clean", c.N(2400, 24000), func(k *vlib.Case) { history(k, "clean") })
+	c.Cases("wide", c.N(500, 5000), func(k *vlib.Case) { history(k, "wide") })
+	c.Cases("maxlinks", c.N(400, 3000), func(k *vlib.Case) { history(k, "maxlinks") })
+	c.Cases("rawstat", c.N(400, 3000), func(k *vlib.Case) { history(k, "rawstat") })
+	c.Cases("trigger", c.N(400, 3000), func(k *vlib.Case) { history(k, "trigger") })
+	c.Cases("longfd", c.N(400, 3000), func(k *vlib.Case) { history(k, "longfd") })
 }
 
 func history(k *vlib.Case, stratum string) {
@@ -1092,6 +1093,10 @@ func (w *world) opWrite(p string) {
 	if len(data) == 0 || inline == 0 {
 		fn.inlineLeaf = false
 	}
+	// (single-leaf-ness depends on write buffering and on the 4096-byte zero
+	// chunks of sparse extension; any non-empty metadata-free file is treated as
+	// a possible raw leaf: conservative for the avoidance rule)
+	fn.rawLeaf = w.cfg.cidV1 && !fn.inlineLeaf && fn.mode == 0 && fn.mt.kind == mtUnset && len(data) > 0
 	w.staleShape = interAt >= 0 && w.cleanedDepth >= 0 && w.freshLookup
 	w.preClose = w.atFresh
 	w.checkFileVisible(p, fn, "after-write")
